@@ -89,7 +89,10 @@ def showOutcome (R : Router) (o : Outcome) : String :=
     let names := formBinds l.route l.long
     let vals := names.filterMap fun n => (ps.get? n).map (n, ·)
     let _ := R
-    s!"h {l.hid} long={if l.long then 1 else 0} {showParams ps names} route={(ps.get? (B "route")).getD [] |>.toHex} u0={(urlPath l.route vals false).toHex} u1={(urlPath l.route vals true).toHex}"
+    -- `all=`: every key the matcher wrote while serving THIS request (values of abandoned branches included): what the
+    -- handler's map may contain at most — a key or value from anywhere else (an earlier request) is a leak
+    let allKeys := (ps.map (·.1)).eraseDups.filter (· != B "route")
+    s!"h {l.hid} long={if l.long then 1 else 0} {showParams ps names} route={(ps.get? (B "route")).getD [] |>.toHex} u0={(urlPath l.route vals false).toHex} u1={(urlPath l.route vals true).toHex} all={if allKeys.isEmpty then "-" else showParams ps allKeys}"
 
 structure St where
   R : Router := Router.new
